@@ -26,7 +26,7 @@ RULE = ('cases = (aperture-dependent package in format 1 or 2 with 2..8 aperture
         'distance range, log-distance step, A_V range, 4 sources over all flags) drawn from the quantifier of C02; a '
         'case is non-trivial when the grid has >= 2 trial distances or some theta*d lies beyond the largest aperture; '
         'distinct = distinct canonical hash of the generated inputs')
-REQUIRED_BRANCHES = ['rebuilt_in_place', 'rebuilt_same_format', 'rebuilt_other_format', 'flux_other_unit', 'named_in_cube', 'ap_table_other_unit', 'ext_other_unit', 'theta_other_unit', 'same_theta_diff_tables',
+REQUIRED_BRANCHES = ['single_on_first_knot', 'single_on_inner_knot', 'single_on_last_knot', 'rebuilt_in_place', 'rebuilt_same_format', 'rebuilt_other_format', 'flux_other_unit', 'named_in_cube', 'ap_table_other_unit', 'ext_other_unit', 'theta_other_unit', 'same_theta_diff_tables',
                      'pred_fluxes', 'chi2_big_compared', 'range_other_unit', 'exact_multiple', 'format1', 'format2', 'dmin_eq_dmax', 'multi_distance', 'beyond_largest', 'inside_table',
                      'flux_monotone', 'flux_arbitrary', 'clamp_low', 'clamp_high', 'interior', 'lo_eq_hi',
                      'best_first', 'best_last', 'best_inner', 'limit_violated', 'limit_ok', 'flag4', 'flag0or9',
@@ -49,15 +49,30 @@ def np_interp_row(aps, row, x):
     return float(np.interp(x, aps, row))
 
 
+KNOT = ('knot_first', 'knot_inner', 'knot_last')     # single distance with theta*d exactly on a tabulated aperture
+SINGLE = ('single',) + KNOT
+
+
+def exact_product(theta, dkpc):
+    """theta * (d_kpc * 1000.) evaluated in floats is the exact product"""
+    F = common.Fraction
+    dpc = dkpc * 1000.
+    return F(dpc) == F(dkpc) * 1000 and F(theta * dpc) == F(theta) * F(dpc)
+
+
 def gen_case(rng, directed=None):
     fmt = rng.choice([1, 2])
     rkind = rng.choice(['inside', 'beyond', 'beyond', 'mixed', 'single'])
     akind = rng.choice(['interior', 'clamp_low', 'clamp_high', 'lo_eq_hi', 'wide', 'wide'])
     if directed:
         fmt, rkind, akind = directed[:3]
+    elif rng.random() < 0.06:
+        rkind = rng.choice(KNOT)
     nb = 1 if rng.random() < 0.08 else rng.randint(2, 5)
     nm = rng.randint(1, 6)
     nap = rng.randint(2, 8)
+    if rkind in KNOT:
+        nap = max(nap, 3)
     wavs = set()
     while len(wavs) < nb:
         wavs.add(nice(rng, 0.3, 100., 3))
@@ -72,7 +87,9 @@ def gen_case(rng, directed=None):
     # distance range and step
     step = rng.choice([0.005, 0.01, 0.02, 0.025, 0.05, 0.1, 0.2, 0.5, nice(rng, 0.005, 0.5, 2)])
     dmin = nice(rng, 0.05, 20., 3)
-    if rkind == 'single':
+    if rkind in KNOT:
+        dmin = rng.choice([0.01, 0.02, 0.05, 0.1, 0.25, 0.5, 1., 2., 4., 5., 10.])
+    if rkind in SINGLE:
         dmax = dmin
     else:
         max_pts = rng.choice([3, 10, 30, 80])
@@ -83,43 +100,57 @@ def gen_case(rng, directed=None):
     # log-width an exact multiple of the step (e.g. 1..10 kpc with step 0.25): the ceil() in the grid length is
     # then taken at an exact integer, in the code's float arithmetic too
     exact = (bool(directed) and len(directed) > 3 and directed[3] == 'exact') or (not directed and rng.random() < 0.06)
-    if exact and rkind != 'single':
+    if exact and rkind not in SINGLE:
         step = rng.choice([0.25, 0.5, 0.125, 0.0625])
         dmin = rng.choice([1., 10., 0.1])
         dmax = dmin * rng.choice([10., 100.])
     # the range may be given in any length unit; the model works with the kpc floats the code derives from it
-    dunit = 'kpc' if (exact or rng.random() < 0.5) else rng.choice(['pc', 'Mpc', 'cm', 'lyr', 'm'])
+    dunit = 'kpc' if (exact or rkind in KNOT or rng.random() < 0.5) else rng.choice(['pc', 'Mpc', 'cm', 'lyr', 'm'])
     if dunit != 'kpc':
         from astropy import units as _u
         fac = (1. * _u.kpc).to(_u.Unit(dunit)).value
         du = [float('%.4g' % (dmin * fac)), float('%.4g' % (dmax * fac))]
-        if rkind == 'single':
+        if rkind in SINGLE:
             du[1] = du[0]
         dmin, dmax = pk.to_kpc(du, dunit)
-        if dmax < dmin or (rkind != 'single' and dmax == dmin):
+        if dmax < dmin or (rkind not in SINGLE and dmax == dmin):
             dunit, du = 'kpc', None
     if dunit == 'kpc':
         du = [dmin, dmax]
     thetas = [nice(rng, 0.5, 30., 2) for _ in range(nb)]
     opts = directed[4] if directed and len(directed) > 4 else {}
+    if rkind in KNOT:
+        # few-digit numbers, so that theta * (d * 1000) is exact in floats as well: the radius IS the knot
+        thetas = []
+        while len(thetas) < nb:
+            t = rng.choice([0.5, 1., 2., 2.5, 4., 5., 8., 10., 20.])
+            if exact_product(t, dmin):
+                thetas.append(t)
     if opts.get('same_theta') or (not directed and rng.random() < 0.15):
         thetas = [thetas[0]] * nb        # one angular aperture for all bands (tables may still differ)
     # the aperture radii may be given in any angle unit; the model works with the arcsec floats the code derives
-    theta_unit = opts.get('theta_unit') or ('arcsec' if (directed or rng.random() < 0.6) else rng.choice(['arcmin', 'deg', 'rad']))
+    theta_unit = opts.get('theta_unit') or ('arcsec' if (directed or rkind in KNOT or rng.random() < 0.6) else rng.choice(['arcmin', 'deg', 'rad']))
     thetas_given = list(thetas)
     if theta_unit != 'arcsec':
         thetas_given = [float('%.3g' % v) for v in (np.array(thetas) * u.arcsec).to(u.Unit(theta_unit)).value]
         thetas = [float(v) for v in (np.array(thetas_given) * u.Unit(theta_unit)).to(u.arcsec).value]
     # version 2: some bands may be named filters with their own convolved/<name>.fits (and aperture table)
     named = [False] * nb
-    if fmt == 2 and rkind != 'on_knot' and (opts.get('named') or (not directed and rng.random() < 0.4)):
+    if fmt == 2 and rkind != 'on_knot' and rkind not in KNOT and (opts.get('named') or (not directed and rng.random() < 0.4)):
         named = [rng.random() < 0.6 for _ in range(nb)]
         if not any(named):
             named[rng.randrange(nb)] = True
-    ap_unit = opts.get('ap_unit') or ('au' if (directed or rkind == 'on_knot' or rng.random() < 0.6) else rng.choice(['pc', 'cm']))
+    ap_unit = opts.get('ap_unit') or ('au' if (directed or rkind == 'on_knot' or rkind in KNOT or rng.random() < 0.6) else rng.choice(['pc', 'cm']))
     ext_unit = opts.get('ext_unit') or ('micron' if (directed or rng.random() < 0.6) else rng.choice(['nm', 'Angstrom', 'cm']))
     # aperture tables: smallest aperture <= theta*dmin (in AU); largest relative to theta*dmax
     def table(theta_lo, theta_hi):
+        if rkind in KNOT:
+            r = theta_lo * (dmin * 1000.)
+            k = {'knot_first': 0, 'knot_last': nap - 1}.get(rkind, rng.randint(1, nap - 2))
+            ratio = rng.uniform(1.5, 3.)
+            kn = [r if i == k else float('%.5g' % (r * ratio ** (i - k))) for i in range(nap)]
+            assert all(kn[i] < kn[i + 1] for i in range(nap - 1))
+            return kn
         rmin = theta_lo * dmin * 1000.
         rmax = theta_hi * dmax * 1000.
         if rkind == 'on_knot':
@@ -147,7 +178,7 @@ def gen_case(rng, directed=None):
         return aps
     if fmt == 2:
         shared = table(min(thetas), max(thetas))
-        if rkind == 'on_knot':
+        if rkind == 'on_knot' or rkind in KNOT:
             thetas = [thetas[0]] * nb       # every band sits on the knot
             thetas_given = [thetas_given[0]] * nb
             shared = table(thetas[0], thetas[0])
@@ -245,6 +276,8 @@ DIRECTED = [(1, 'inside', 'interior'), (2, 'beyond', 'clamp_low'), (1, 'beyond',
             (1, 'inside', 'wide', None, dict(ext_unit='cm')),
             (1, 'beyond', 'wide', None, dict(flux_unit='Jy')), (2, 'inside', 'interior', None, dict(flux_unit='Jy')),
             (2, 'beyond', 'wide', None, dict(flux_unit='Jy', named=True)), (1, 'mixed', 'interior', None, dict(flux_unit='uJy')),
+            (1, 'knot_first', 'wide'), (2, 'knot_first', 'interior'), (1, 'knot_first', 'interior'), (2, 'knot_first', 'wide'),
+            (1, 'knot_inner', 'wide'), (2, 'knot_inner', 'interior'), (1, 'knot_last', 'wide'), (2, 'knot_last', 'interior'),
             (1, 'inside', 'wide', None, dict(rebuild='same')), (2, 'beyond', 'interior', None, dict(rebuild='same')),
             (1, 'beyond', 'wide', None, dict(rebuild='other')), (2, 'inside', 'wide', None, dict(rebuild='other')),
             (2, 'mixed', 'interior', None, dict(rebuild='same', named=True)),
@@ -449,6 +482,19 @@ def run_case(case):
         branches.add('format%d' % case['fmt'])
         branches.add('flux_monotone' if case['mono'] else 'flux_arbitrary')
         on_knot = exp['error'] is None and abs(exp['below_m']) < MARGIN or exp['error'] == 'tooSmall' and case['rkind'] == 'on_knot'
+        if case['dmin'] == case['dmax']:
+            # a single trial distance is used as given (no 10**log10 round trip): when theta*(d*1000) IS a tabulated
+            # aperture both exactly and in the code's floats, the tabulated value is expected - not a margin case
+            dpc = float((case['dmin'] * u.kpc).to(u.pc).value)
+            radii = [t * dpc for t in case['thetas']]
+            if exp['error'] is None and exp['below_m'] == 0. and all(r >= a[0] for r, a in zip(radii, case['aps'])) \
+                    and all(exact_product(t, case['dmin']) for t in case['thetas']):
+                on_knot = False
+            if not on_knot and exp['error'] is None:
+                for r, a in zip(radii, case['aps']):
+                    if len(a) >= 3 and r in a:
+                        branches.add('single_on_first_knot' if r == a[0] else 'single_on_last_knot' if r == a[-1]
+                                     else 'single_on_inner_knot')
         try:
             fitter = make_fitter(case, d, fnames, ext)
         except Exception as e:      # noqa: BLE001
